@@ -202,6 +202,15 @@ const PF: &[&str] = &["C05", "C01"];
 const PI: &[&str] = &["C15"];
 pub const PANY: &[&str] = &["C01", "C03", "C04", "C05", "C08", "C09", "C10", "C11", "C12", "C15"];
 
+/// the tracked block holding a value at `da` (a zero-sized value sits one past the count word)
+pub fn block_for<P: SizedPayload>(da: usize) -> Option<Block> {
+    if std::mem::size_of::<P>() == 0 {
+        alloc::classify(da.wrapping_sub(1)).or_else(|| alloc::classify(da))
+    } else {
+        alloc::classify(da)
+    }
+}
+
 pub fn data_addr<P: SizedPayload>(h: &H<P>) -> usize {
     match h {
         H::Arc(a) => &**a as *const P as usize,
@@ -318,7 +327,7 @@ impl<P: SizedPayload> St<P> {
         let p = peek(&h);
         let da = data_addr(&h);
         let survivors: Vec<Block> = eff.allocs.iter().filter(|b| alloc::block_by_seq(b.seq).map(|x| x.live).unwrap_or(false)).copied().collect();
-        let block = match alloc::classify(da).or_else(|| survivors.first().copied()) {
+        let block = match block_for::<P>(da).or_else(|| survivors.first().copied()) {
             Some(b) => b,
             None => {
                 viol::report(PF, "F.no-block", format!("{}: the new handle's value at {:#x} is in no block obtained from the allocator", how, da));
